@@ -247,6 +247,12 @@ func (p *Program) Method(rel, typeName, method string) *ssa.Function {
 			return p.SSA.FuncValue(m)
 		}
 	}
+	// promoted from an embedded struct?
+	if sel := types.NewMethodSet(types.NewPointer(named)).Lookup(sp.Pkg, method); sel != nil && len(sel.Index()) > 1 {
+		if f, ok := sel.Obj().(*types.Func); ok {
+			return p.SSA.FuncValue(f)
+		}
+	}
 	return nil
 }
 
